@@ -84,6 +84,9 @@ def strip_comments(src):
         if depth == 0 and src[i] == '"':
             instr = not instr
             out.append(src[i]); i += 1; continue
+        if instr:
+            # string literals cannot declare anything: blank their content
+            out.append("\n" if src[i] == "\n" else " "); i += 1; continue
         if not instr and c2 == "(*":
             depth += 1; i += 2; continue
         if not instr and c2 == "*)" and depth > 0:
